@@ -112,7 +112,12 @@ Definition class_VP8Encoder : list (string * fclass) := [
     stops being decided (a read sneaks in before the fill) breaks the obligation; so
     does a newly decided one (then move it here).  Everything else stays covered by the
     frame-condition hypothesis and the 0xA5 poisoning probe. *)
-Definition wbr_VP8Encoder : list string := ["topNz"; "topNzDC"; "itTopY"; "itTopU"; "itTopV"; "itTopNZ"].
+Definition wbr_VP8Encoder : list string := ["topNz"; "topNzDC"; "statTopNz"; "statTopNzDC"; "itTopY"; "itTopU"; "itTopV"; "itTopNZ"].
+
+(** functions that reach a pooled object through two different expressions: only
+    MBIterator.FillPredContext(enc), which also reads it.enc - the back pointer that
+    InitIterator sets to the same encoder (it := &enc.mbIterator; it.enc = enc) *)
+Definition two_base_functions : list string := ["MBIterator.FillPredContext"].
 Definition wbr_lossy_Decoder : list string := ["cacheYOff"; "cacheUOff"; "cacheVOff"; "dcScratch"].
 Definition wbr_parallelState : list string := ["topY"; "topU"; "topV"; "topModes"; "topNz"; "topNzDC"].
 Definition wbr_TokenBuffer : list string := [].
@@ -122,6 +127,27 @@ Definition wbr_lossless_Decoder : list string := [].
 (** origins of returned values outside the module that allocate fresh storage owned by
     the caller: image.NewNRGBA; the bytes of a function-local bytes.Buffer *)
 Definition fresh_external_origins : list string := ["ext:image.NewNRGBA"; "method:Buffer.Bytes"].
+
+(** package-level variables that are written after their declaration - all of them
+    lookup / dispatch tables filled by init functions or inside (sync.Once).Do *)
+Definition written_globals : list string :=
+  ["dsp.AddGreenToBlueAndRedFunc"; "dsp.DspScan"; "dsp.DspScanUV"; "dsp.FTransform"; 
+   "dsp.FTransform2"; "dsp.FTransformWHT"; "dsp.ITransform"; "dsp.LosslessPredictors"; 
+   "dsp.PredChroma8"; "dsp.PredLuma16"; "dsp.PredLuma4"; "dsp.SSE16x16"; "dsp.SSE4x4"; 
+   "dsp.SubtractGreenFunc"; "dsp.Transform"; "dsp.TransformAC3"; "dsp.TransformDC"; 
+   "dsp.TransformDCUV"; "dsp.TransformUV"; "dsp.TransformWHT"; "dsp.VP8LevelFixedCosts"; 
+   "dsp.abs0"; "dsp.clip1"; "dsp.hasAVX2"; "dsp.kGammaToLinearTab"; "dsp.kLinearToGammaTab"; 
+   "dsp.sclip1"; "dsp.sclip2"; "dsp.vp8kClip"; "dsp.vp8kClip4Bits"; "lossless.fastSLog2LUT"; 
+   "lossless.multiplierDeltaByteLUT"; "lossless.multiplierDeltaTable"; 
+   "lossless.planeToCodeLUT"; "lossy.VP8FixedCostsI4"; "sharpyuv.gammaToLinearTab"; 
+   "sharpyuv.linearToGammaTab"].
+
+(** package-level variables of synchronisation / pooling types: the sync.Pools modelled by
+    this property and the two sync.Once guards of the gamma tables *)
+Definition modelled_sync_globals : list string :=
+  ["dsp.gammaTablesOnce"; "lossless.losslessDecoderPool"; "lossless.losslessEncoderPool"; "lossy.boolWriterPool";
+   "lossy.encoderPool"; "lossy.importUVWorkerPool"; "lossy.lossyDecoderPool"; "lossy.parallelPool";
+   "pool.pools"; "root.argbPool"; "sharpyuv.gammaTablesOnce"].
 
 (** resets delegated to a callee that re-initialises the whole field: (field, callee as
     it appears in the regenerated call lists).  ResetProba writes Segments, Bands and
